@@ -108,6 +108,7 @@ def run(ck):
             if len(ck.samples) < 3 and any(e[0] == 'ERaise' for e in res.trace):
                 ck.sample({'program': sc['program'], 'flags': [sc['keep_going'], sc['keep_failed']], 'events': [X.ev_show(e) for e in res.trace[:40]]})
     # the real `jug execute` command (exit status, barrier passes, cleanup --failed-only) in subprocesses on a file store
+    X.require_coverage(ck, [X.WAIT_KEY, X.DUMP_KEY], 'lock-step runs')
     b.flush()
     from . import execproc
     execproc.failure_runs(ck, ck.n(8, 60))
